@@ -291,7 +291,7 @@ class World:
         f = (lambda ch: True) if sel_name is None else (lambda ch: ch.name == sel_name)
         (s, e), out = quiet(p.replace_child, f, n, index)
         r = 'ok' if s == 'ok' else exc_enum(e, 'repl')
-        m = self._m('replx %d %d %d %d %d' % (i, 0 if sel_name is None else ix(sel_name), index, new, ix(n.name)))
+        m = self._m('replx %d %s %d %d %d' % (i, '*' if sel_name is None else str(ix(sel_name)), index, new, ix(n.name)))
         if m != 'dead':
             self.lines.append(('replx %d %s %d %d' % (i, sel_name, index, new), m, r))
             self._note(m, r)
